@@ -60,6 +60,7 @@ pub fn generate(kind: &str, seed: u64) -> Option<Vec<u8>> {
         "toks" => gen_tokens(&mut rng).into_bytes(),
         "rep" => gen_repetition(&mut rng).into_bytes(),
         "gram" => gen_grammar(&mut rng).into_bytes(),
+        "feat" => gen_features(&mut rng).into_bytes(),
         "gmut" => {
             let src = gen_grammar(&mut rng);
             mutate_tokens(&src, &mut rng).into_bytes()
@@ -413,7 +414,7 @@ const API_DEFINES: &[(&str, &str)] = &[("DEF", "1"), ("DEF", "a b"), ("DEF", "")
 pub fn plan(rng: &mut Rng, scale: u64, thorough: bool, repo: &str, hist: &mut Hist) -> Vec<Req> {
     let mut specs: Vec<String> = Vec::new();
     let per = |n: u64| n * scale;
-    for (kind, n) in [("bytes", 110u64), ("toks", 220), ("rep", 160), ("gram", 220), ("gmut", 160), ("prog", 40), ("pmut", 60)] {
+    for (kind, n) in [("bytes", 100u64), ("toks", 180), ("rep", 140), ("gram", 200), ("gmut", 120), ("feat", 260), ("prog", 40), ("pmut", 50)] {
         for _ in 0..per(n) {
             specs.push(format!("{}:{}", kind, rng.next() >> 20));
         }
